@@ -153,8 +153,8 @@ PROPS = {
                      "with tamper enumeration on real keys",
     },
     "C10": {
-        "cmd": "c10", "seed": 110, "gentie": 0, "corr": ["Parser", "ViewOfBytes"], "coq_dirs": ["Parser", "Hash", "Jws", "Json", "Corr/Parser", "Corr/ViewOfBytes", "GenTie/Parser", "Props/C10"],
-        "gens": [{"name": "gen_view", "pkg": "./cmd/gen_view"}],
+        "cmd": "c10", "seed": 110, "gentie": 0, "corr": ["Parser", "ViewOfBytes", "ViewValidated"], "coq_dirs": ["Parser", "Hash", "Jws", "Json", "Doc", "Corr/Parser", "Corr/ViewOfBytes", "Corr/ViewValidated", "GenTie/Parser", "Props/C10"],
+        "gens": [{"name": "gen_view", "pkg": "./cmd/gen_view"}, {"name": "gen_vlink", "pkg": "./cmd/gen_vlink"}],
         "rule": "valid create/update/recover/deactivate requests (keys of all types, both hash algorithms) and signed-data level "
                 "variants (nonce sizes, key re-use, equal commitments, other revealed key, other signed suffix, hash mismatch, no delta, "
                 "disabled action) mutated field by field (delete/null/wrong type/empty/over-long/garbage/unsupported code), under 16 "
@@ -439,3 +439,29 @@ _ADD = {
 }
 for _k, _v in _ADD.items():
     PROPS[_k]["level_text"] += _v
+
+# ---- the two model layers joined in the correspondence (added late in the build) ----
+# C01: the abstract anchored operations the resolution checks run on are COMPUTED inside Coq from the raw request bytes
+# (Resolve/FromBytes.v = FromView o ViewOfBytes) and compared with the real code's verdicts on those bytes and with the facts
+# the harness states by construction; resolve_bytes is compared with processor.Resolve on whole histories.
+PROPS["C01"]["gens"] = [{"name": "gen_bridge", "pkg": "./cmd/gen_bridge"}]
+PROPS["C01"]["corr"] = PROPS["C01"]["corr"] + ["Bridge"]
+PROPS["C01"]["coq_dirs"] = PROPS["C01"]["coq_dirs"] + ["Parser", "Json", "Jws", "Hash", "Corr/Bridge"]
+PROPS["C01"]["level_text"] += (
+    " From bytes (Resolve/FromBytes.v, gen_bridge): every operation's facts are computed in Coq from its raw request bytes (decoder, "
+    "parser, hashing, JWS framing models) and must equal, field by field, what the real parser / verifier / hash check / delta "
+    "validator decide on those bytes, and - up to fields resolution provably cannot observe (aop_norm, resolve_norm) - what the "
+    "harness states by construction; resolve_bytes (the processor model on stored bytes) is compared with processor.Resolve on "
+    "histories; the authorisation theorems are restated for bytes (forged_bytes_never_applies, resolve_bytes_applied_signed).")
+PROPS["C01"]["trusted_base"] = list(PROPS["C01"]["trusted_base"]) + [
+    "gen_bridge: remaining facts per operation are taken from the REAL code run on the bytes (signature primitive verdict, key "
+    "decodability, per-patch validator verdict, ApplyPatches success, protocol-version lookup), not from the builder's flags"]
+PROPS["C10"]["level_text"] += (
+    " Validator inside the parser model (Parser/ViewValidated.v, gen_vlink): the per-patch verdicts are no longer facts - they are "
+    "computed by the C18 validator model on the patches decoded in Coq from the request bytes and compared with the real "
+    "patchvalidator / ValidateDelta / Parse on real signed requests carrying every kind of patch; an accepted create / update / recover "
+    "has a non-empty patch list whose every patch satisfies the validator model and whose action is enabled (accepted_request_patches_validated), "
+    "one refused patch rejects the request, and an accepted request's ietf-json-patch leaves the protected members unchanged (composition with C18).")
+PROPS["C18"]["level_text"] += (
+    " Linked to intake (Parser/ViewValidatedProofs.v): the validator model is the very function the parser model applies to the patches "
+    "decoded from request bytes (delta_loop_agrees), so the C18 rules hold for every request the parser model accepts.")
